@@ -47,6 +47,19 @@ def arg_class(rng, r):
     return np.array(r[len(r) // 2]), "0d"
 
 
+def shape_check(ctx, D, Dref, canc, rel, name, wit):
+    """D must be one constant times the reference: the constant is fitted where D is well above the cancellation floor."""
+    good = Dref > 1e4 * canc
+    if good.sum() < 2:
+        return
+    im = int(np.argmax(Dref))               # the largest value carries the least cancellation noise
+    k = float(D[im] / Dref[im])
+    ctx.count("shape_checks")
+    ctx.metric("abs(k-1):" + name, abs(k - 1))
+    ctx.check(abs(k - 1) <= 1e-3, name + ":constant", "best-fit constant vs the reference is %.6f" % k, wit)
+    ctx.close(name + "_shape", D, k * Dref, rel * Dref + 2 * canc, name + ":shape_differs_from_von_karman", dict(wit, fitted_constant=k), scale=float(Dref.max()))
+
+
 def run(ctx, spec):
     import aotools
     from aotools.turbulence import slopecovariance as sc, turb
@@ -86,6 +99,8 @@ def run(ctx, spec):
             ctx.check(bool(np.all(np.isfinite(D)) and np.all(np.isfinite(B))), "nonfinite", "non-finite value returned", wit)
             # vs the reference (constant rounding <= 1e-3, cancellation 64 eps D_sat)
             ctx.close("D_vs_reference", D, Dref, 1e-3 * Dref + canc, "structure_function_vk:reference", wit, scale=2 * B0ref)
+            # the only licence is the rounding of ONE published constant: D = k D_ref with the same k (|k - 1| <= 1e-3) at every separation
+            shape_check(ctx, D, Dref, canc, 64 * e_a, "structure_function_vk", wit)
             # (both functions evaluate in the precision of the separation array: double unless it is float32)
             e_b = 16 * EPS32 * B0ref if cls == "float32" else canc
             ctx.close("B_vs_reference", B, Bref, 1e-3 * np.abs(Bref) + e_b, "phase_covariance:reference", wit, scale=B0ref)
@@ -128,6 +143,7 @@ def run(ctx, spec):
             ref1 = vk.structure_function(rr, 1.0, L0)
             ctx.close("KL_copy_vs_slopecov_copy", Dk, D1, 1e-3 * ref1 + canc1, "stf_vonKarman:agrees_with_structure_function_vk", wit, scale=2 * B01)
             ctx.close("KL_copy_vs_reference", Dk, ref1, 1e-3 * ref1 + canc1, "stf_vonKarman:reference", wit, scale=2 * B01)
+            shape_check(ctx, Dk, ref1, canc1, 64 * e_a, "stf_vonKarman", wit)
             ctx.check(bool(np.all(Dk[zero_idx] == 0)), "stf_vonKarman:zero_at_zero", "stf_vonKarman(0) = %r" % (Dk[zero_idx],), wit)
             valid = (rr <= 0.1 * L0)
             if np.any(valid):
